@@ -23,8 +23,11 @@ import (
 //	vcheck selftest [--only substr] [--tier quick|thorough] [-j N]
 func cmdSelftest(args []string) int {
 	only, tier, par := "", "quick", 3
+	matrix := false
 	for i := 0; i < len(args); i++ {
 		switch args[i] {
+		case "--matrix":
+			matrix = true // run every property's check against every change
 		case "--only":
 			i++
 			only = args[i]
@@ -55,6 +58,13 @@ func cmdSelftest(args []string) int {
 		}
 		parts := strings.SplitN(name, "__", 2)
 		props := strings.Split(parts[0], "+")
+		if matrix {
+			props = nil
+			for id := range configs {
+				props = append(props, id)
+			}
+			sort.Strings(props)
+		}
 		wg.Add(1)
 		go func(i int, f, name string, props []string) {
 			defer wg.Done()
@@ -78,8 +88,11 @@ func cmdSelftest(args []string) int {
 			bad++
 		}
 	}
-	if only == "" {
+	if only == "" && !matrix {
 		os.WriteFile(filepath.Join(home(), "mutants", "RESULTS-"+tier+".md"), []byte(sb.String()), 0o644)
+	}
+	if matrix {
+		os.WriteFile(filepath.Join(home(), "mutants", "MATRIX-"+tier+".md"), []byte(sb.String()), 0o644)
 	}
 	if bad > 0 {
 		fmt.Printf("selftest: %d mutant(s) not detected\n", bad)
